@@ -250,7 +250,7 @@ def r4_state_dependent_width_rechecked(ctx: Ctx) -> None:
                     helper = ci.methods.get(cn.split(".", 1)[1])
                     if helper is not None and _raising_compare(helper.node, recorded, helper.params()[1]):
                         checks_pa.append(gp.node_of(n))
-            if isinstance(n, ast.If) and raising_compare_inline(n, recorded, var):
+            if isinstance(n, ast.If) and raising_compare_inline(n, recorded, var, pa.node, (var,)):
                 checks_pa.append(gp.node_of(n.test))
         ctx.check(bool(checks_pa) and gp.dominated_by(gp.node_of(stn), checks_pa), "OpcodeNode.pc_after:compare-before-overwrite",
                   "a later pass that infers another length must fail, not overwrite the length the labels were placed with")
@@ -273,7 +273,7 @@ def r4_state_dependent_width_rechecked(ctx: Ctx) -> None:
                     helper = ci.methods.get(cn.split(".", 1)[1])
                     if helper is not None and raising_compare(helper.node, helper.params()[1]):
                         checks.append(g.node_of(n))
-            if isinstance(n, ast.If) and raising_compare_inline(n, recorded, f"len({var})"):
+            if isinstance(n, ast.If) and raising_compare_inline(n, recorded, f"len({var})", em.node, (var,)):
                 checks.append(g.node_of(n.test))
         rn = g.node_of(r)
         ctx.check(bool(checks) and g.dominated_by(rn, checks), f"OpcodeNode.emit:return {var}",
@@ -294,12 +294,14 @@ def _raising_compare(fn_node: ast.FunctionDef, recorded: str, other: str) -> boo
         return any(isinstance(s, ast.If) and raising_compare_inline(s, recorded, other) for s in walk_no_nested(fn_node))
 
 
-def raising_compare_inline(s: ast.If, recorded: str, other: str) -> bool:
+def raising_compare_inline(s: ast.If, recorded: str, other: str, fn: ast.FunctionDef | None = None, keep: tuple[str, ...] = ()) -> bool:
+    """`if ... recorded != other ...: raise` (either operand order; with fn, operands are read through single-assignment temporaries)"""
     if not always_raises(s.body):
         return False
+    text = (lambda e: canon(fn, e, keep=keep)) if fn is not None else unparse
     for c in ast.walk(s.test):
         if isinstance(c, ast.Compare) and len(c.ops) == 1 and isinstance(c.ops[0], ast.NotEq):
-            if {unparse(c.left), unparse(c.comparators[0])} == {recorded, other}:
+            if {text(c.left), text(c.comparators[0])} == {recorded, other} or {unparse(c.left), unparse(c.comparators[0])} == {recorded, other}:
                 return True
     return False
 
